@@ -24,7 +24,7 @@ WINDOWS = st.lists(st.tuples(st.integers(-2, 12), st.integers(0, 8)), min_size=2
 
 
 def strategy(tier):
-    return st.tuples(gen.history(max_ops=12), WINDOWS).map(lambda x: dict(x[0], win=[list(w) for w in x[1]]))
+    return st.tuples(gen.tiered(tier, max_ops=12), WINDOWS).map(lambda x: dict(x[0], win=[list(w) for w in x[1]]))
 
 
 def exhaustive(tier):
